@@ -10,7 +10,7 @@ Require Import Blots.Num Blots.gen.Builtins Blots.Ast Blots.Value Blots.Outcome 
                Blots.Env Blots.Eval Blots.BuiltinsHof Blots.Program Blots.EvalInst Blots.EvalFull
                Blots.proofs.ValueInd Blots.proofs.StoreMono Blots.proofs.InstMono Blots.proofs.FullInst
                Blots.proofs.Frames Blots.proofs.Scoping
-               Blots.proofs.C02Ren Blots.proofs.C02Sim Blots.proofs.C02Ops Blots.proofs.C02Twice
+               Blots.proofs.C02Ren Blots.proofs.C02Sim Blots.proofs.C02Ops Blots.proofs.C02Keep Blots.proofs.C02Twice
                Blots.proofs.C02Let Blots.proofs.EmitHO Blots.proofs.RelPure.
 Require Blots.BuiltinsList Blots.BuiltinsAgg Blots.BuiltinsText.
 Import ListNotations.
@@ -117,50 +117,36 @@ Theorem store_extension_invariance_full : forall release rho, (forall a b : nat,
                 sinv rho sA' sB'.
 Proof. intros release. exact (store_extension_invariance release binop_impl builtin_full ops_commute_full). Qed.
 
+(* with the repaired naming rule (F52; proofs/C02Keep.v: no evaluation writes to a cell that existed before it)
+   there is no side condition on names *)
 Theorem eval_twice_exact_full : forall release d e st fr r1 st1 fr1,
   no_assign e = true -> frames_lt (length st) fr = true ->
   evalD release binop_impl builtin_full d (st, fr) e = (r1, (st1, fr1)) ->
-  old_names_kept st st1 ->
   fr1 = fr /\
   exists st2, evalD release binop_impl builtin_full d (st1, fr) e =
                 (oren (shift (length st) (length st1 - length st)) r1, (st2, fr)) /\
               sinv (shift (length st) (length st1 - length st)) st1 st2.
 Proof.
-  intros release d e st fr r1 st1 fr1 Hna Hwf HA Hk.
-  pose proof (evalD_store_le release binop_impl builtin_full binop_impl_mono builtin_full_mono d (st, fr) e r1 (st1, fr1) HA) as [Hlen _].
+  intros release d e st fr r1 st1 fr1 Hna Hwf HA.
+  destruct (store_keep_old_names _ _ (evalD_store_keep_full release d (st, fr) e r1 (st1, fr1) HA)) as [Hlen Hk].
   exact (eval_twice_shift release binop_impl builtin_full ops_commute_full d e st fr r1 st1 fr1 Hna Hwf HA Hlen Hk).
 Qed.
 
 Theorem eval_twice_full : forall release d e c r1 c1 r2 c2,
   no_assign e = true -> cfg_wf c = true ->
-  evalD release binop_impl builtin_full d c e = (r1, c1) -> old_names_kept (fst c) (fst c1) ->
-  evalD release binop_impl builtin_full d c1 e = (r2, c2) ->
-  osame r1 r2 /\ snd c2 = snd c /\ snd c1 = snd c.
-Proof.
-  intros release d e c r1 c1 r2 c2 Hna Hwf HA Hk HB.
-  pose proof (evalD_store_le release binop_impl builtin_full binop_impl_mono builtin_full_mono d c e r1 c1 HA) as [Hlen _].
-  exact (eval_twice_same release binop_impl builtin_full ops_commute_full d e c r1 c1 r2 c2 Hna Hwf HA Hlen Hk HB).
-Qed.
-
-Corollary eval_twice_full_named : forall release d e c r1 c1 r2 c2,
-  no_assign e = true -> cfg_wf c = true -> all_named (fst c) ->
   evalD release binop_impl builtin_full d c e = (r1, c1) ->
   evalD release binop_impl builtin_full d c1 e = (r2, c2) ->
   osame r1 r2 /\ snd c2 = snd c /\ snd c1 = snd c.
-Proof.
-  intros release d e c r1 c1 r2 c2 Hna Hwf Hall HA HB.
-  pose proof (evalD_store_le release binop_impl builtin_full binop_impl_mono builtin_full_mono d c e r1 c1 HA) as Hle.
-  eapply eval_twice_full; eauto. apply all_named_kept; assumption.
-Qed.
+Proof. exact (eval_twice_full_dispatcher ops_commute_full). Qed.
 
 Corollary eval_twice_full_equals : forall release d e c v1 c1 v2 c2,
   no_assign e = true -> cfg_wf c = true ->
-  evalD release binop_impl builtin_full d c e = (Ok v1, c1) -> old_names_kept (fst c) (fst c1) ->
+  evalD release binop_impl builtin_full d c e = (Ok v1, c1) ->
   evalD release binop_impl builtin_full d c1 e = (Ok v2, c2) ->
   equals v1 v2 = equals v1 v1.
 Proof.
-  intros release d e c v1 c1 v2 c2 Hna Hwf HA Hk HB.
-  destruct (eval_twice_full release d e c (Ok v1) c1 (Ok v2) c2 Hna Hwf HA Hk HB) as [Hs _].
+  intros release d e c v1 c1 v2 c2 Hna Hwf HA HB.
+  destruct (eval_twice_full release d e c (Ok v1) c1 (Ok v2) c2 Hna Hwf HA HB) as [Hs _].
   apply same_equals. exact Hs.
 Qed.
 
@@ -169,15 +155,14 @@ Theorem let_abstraction_head_full : forall release d x s st st1 fr v eA eB rA cA
   frames_lt (length st) fr = true ->
   evalD release binop_impl builtin_full d (st, fr) (EId x) = (Ok v, (st, fr)) ->
   evalD release binop_impl builtin_full d (st, fr) s = (Ok v, (st1, fr)) ->
-  cell_free v = true -> old_names_kept st st1 ->
+  cell_free v = true ->
   hctx x s eA eB ->
   evalD release binop_impl builtin_full d (st, fr) eA = (rA, cA) ->
   evalD release binop_impl builtin_full d (st, fr) eB = (rB, cB) ->
   osame rA rB.
 Proof.
-  intros release d x s st st1 fr v eA eB rA cA rB cB Hwf Hx Hs Hv Hk H HA HB.
-  pose proof (evalD_store_le release binop_impl builtin_full binop_impl_mono builtin_full_mono d _ _ _ _ Hs) as [Hlen _].
-  cbn [fst] in Hlen.
+  intros release d x s st st1 fr v eA eB rA cA rB cB Hwf Hx Hs Hv H HA HB.
+  destruct (store_keep_old_names _ _ (evalD_store_keep_full release d _ _ _ _ Hs)) as [Hlen Hk]. cbn [fst] in Hlen, Hk.
   exact (proj1 (let_abstraction_head release binop_impl builtin_full ops_commute_full d x s st st1 fr v
                   Hwf Hx Hs Hv Hlen Hk eA eB rA cA rB cB H HA HB)).
 Qed.
